@@ -332,7 +332,7 @@ def wiring(ctx, p):
                 snv = sn.value if isinstance(sn, ast.Constant) else (False if sn is None else norm_text(sn))
                 sk = b.get("skip_mask")
                 det = f"values={norm_text(b.get('values'))} mask={norm_text(b.get('mask'))} store_native={snv}"
-                ok = norm_text(b.get("values")) == "self" and norm_text(b.get("mask")) == "self.mask" and snv is want_native and sk is None
+                ok = norm_text(b.get("values")) == "self" and norm_text(b.get("mask")) == "self.mask" and snv is want_native and (sk is None or (isinstance(sk, ast.Constant) and sk.value is False))
             n += 1
             ctx.ob(rule, f"{ck}.{prop}", ok, where=m, node=rets[0] if rets else m.node, construct=det,
                    message=f".{prop} must rebuild the same structure from self on self.mask with store_native={want_native} (and the masking step enabled)")
